@@ -327,7 +327,9 @@ class Ctx:
         """a clause of the property evaluated directly on an impl execution"""
         self.oracle_count[clause] = self.oracle_count.get(clause, 0) + 1
         if not ok:
-            if len(self.oracle_failures) < 200:
+            self.fail_per_clause = getattr(self, 'fail_per_clause', {})
+            self.fail_per_clause[clause] = self.fail_per_clause.get(clause, 0) + 1
+            if self.fail_per_clause[clause] <= 40:
                 self.oracle_failures.append({'clause': clause, 'inputs': jsonable(inputs), 'detail': jsonable(detail),
                                              'facts': jsonable(facts or {})})
             else:
